@@ -389,6 +389,8 @@ class ValueGen:
     def valid(self, t, depth=0):
         """A tagged value valid for IR type t (by construction), or None if none could be drawn."""
         rng = self.rng
+        if depth > 14:
+            return None         # a type all of whose values are infinite (required self-reference): uninhabited
         if isinstance(t, Nullable):
             if rng.random() < 0.3 or depth > 5:
                 return ['n']
